@@ -5,8 +5,9 @@
    All quantifiers are unbounded: base sizes, prices, coins are arbitrary N (also >= 2^64: no range premise
    is needed), outputs have arbitrary address lengths, bundles, datum and script sizes; fee figures and
    the bundles packed into change outputs are universally quantified oracle arguments. *)
+From CSL Require Num.Value Builder.Totals Builder.Change Builder.ChangeProofs MinAda.ChangeInstance.
 From CSL Require Import Base.Prelude Base.U64 Cbor.Head Cbor.HeadProofs
-  Codec.Schema Ledger.Schemas MinAda.OutputSize MinAda.MinAda MinAda.Change MinAda.MinAdaProofs MinAda.ChangeProofs MinAda.SchemaTie.
+  Codec.Schema Ledger.Schemas MinAda.OutputSize MinAda.MinAda MinAda.Change MinAda.MinAdaProofs MinAda.ChangeProofs MinAda.SchemaTie MinAda.TxSize.
 Local Open Scope N_scope.
 
 (* ---- the calculator, over (base, coin): size = base + head_size coin is all it sees ---- *)
@@ -130,6 +131,18 @@ Theorem C07_tx_size : forall (cfg : config) (full_size : N),
 Proof. exact build_guard_iff. Qed.
 Print Assumptions C07_tx_size.
 
+(* ... where the measured size is the size algebra of the whole transaction (inputs, outputs, fee, vkey and
+   bootstrap witnesses), and that algebra IS the length of the C01 schema encoding of the transaction: a released
+   transaction's encoding is within max_tx_size (for every unrolling depth d of the recursive schemas) *)
+Theorem C07_tx_size_encoding : forall (d : nat) (cfg : config) (x : ctx),
+  ctx_ok x ->
+  N.of_nat (length (enc_tx d x)) = full_tx_size (ctx_shape d x) /\
+  (build_tx_guard cfg (ctx_shape d x) = Ok tt -> N.of_nat (length (enc_tx d x)) <= c_max_tx_size cfg).
+Proof.
+  intros d cfg x H. split; [apply full_tx_size_is_encoding; exact H | apply build_tx_guard_encoding; exact H].
+Qed.
+Print Assumptions C07_tx_size_encoding.
+
 (* collateral return through the checked entry points: minimum ADA always; with the repair also the value size *)
 Theorem C07_collateral_return : forall (b : bool) (cfg : config) (ret : output),
   (collateral_return_guard_gen b cfg ret = Ok tt -> meets_min (c_cpb cfg) ret = true) /\
@@ -173,6 +186,69 @@ Theorem C07_change_outputs_meet_min :
 Proof. split; intros; [eapply change_ada_only_invariant | eapply change_assets_repaired_invariant]; eauto. Qed.
 Print Assumptions C07_change_outputs_meet_min.
 
+(* the same on C05's FULL model of add_change_if_needed (Builder/Change.v: value arithmetic, bundle packing, every
+   branch), for ANY oracle whose min-ADA and value-size answers are the concrete MinAda model (fee, transaction-size and
+   selection answers and the oracle's own state are arbitrary): a successful add_change leaves every output of the
+   builder within the limits, measured on the REAL addresses (ce_addr) -- although every calculator of the change
+   code prices the fake 57-byte address *)
+Theorem C07_change_on_builder_model :
+  forall (O : Type) (orc : @Change.oracle O) (e : ChangeInstance.cenv),
+  ChangeInstance.sizes_exact e orc ->
+  forall (fuel : nat) (addr extra : N) (s : Totals.state) (o : O) (b : bool),
+  ChangeInstance.all_ok e s ->
+  Change.out_res (Change.add_change orc fuel addr extra s o) = Ok b ->
+  ChangeInstance.all_ok e (Change.out_st (Change.add_change orc fuel addr extra s o)).
+Proof. intros O orc e SE fuel addr extra s o b. apply ChangeInstance.add_change_all_ok. exact SE. Qed.
+Print Assumptions C07_change_on_builder_model.
+
+(* pack_nfts_for_change on C05's model with the concrete value-size answers: every bundle it returns is empty, or the
+   bundle of a value that was tested and FITS max_value_size (at the coin it was tested with; any other coin moves the
+   size by at most 8 bytes), or the re-normalisation v + {policy: {}} of such a value -- provided every single asset of
+   the change fits an output of its own (the asset that causes a split enters the fresh output untested) *)
+Theorem C07_pack_bundles_fit :
+  forall (O : Type) (orc : @Change.oracle O) (e : ChangeInstance.cenv),
+  ChangeInstance.sizes_exact e orc ->
+  forall (ce : Value.value) (ma : Value.multiasset) (s : Totals.state) (o : O) (l : list Value.multiasset),
+  Value.multiasset_of ce = Some ma -> ChangeInstance.all_single_fit e ma ->
+  Change.out_res (Change.pack_nfts_for_change orc ce s o) = Ok l ->
+  Forall (ChangeInstance.bundle_ok e) l /\
+  (forall v c, ChangeInstance.fits e v ->
+     value_size c (ChangeInstance.shape_ma (Value.multiasset_of v)) <= c_max_value_size (ChangeInstance.ce_cfg e) + 8).
+Proof.
+  intros O orc e SE ce ma s o l Ema SF R. split.
+  - destruct (ChangeInstance.pack_nfts_fits orc e SE (fun _ => True) ce ma Ema SF s o I I) as [_ Q].
+    rewrite R in Q. exact (proj2 Q).
+  - intros v c F. exact (ChangeInstance.fits_any_coin e v c F).
+Qed.
+Print Assumptions C07_pack_bundles_fit.
+
+Theorem C07_pack_single_asset_premise_needed :
+  exists e ce s l b,
+    Change.out_res (Change.pack_nfts_for_change (ChangeInstance.c07_oracle e) ce s tt) = Ok l /\ In b l /\
+    forall c, c_max_value_size (ChangeInstance.ce_cfg e) < value_size c (ChangeInstance.shape_ma (Some b)).
+Proof.
+  destruct ChangeInstance.pack_untested_witness as (l & b & H).
+  exists ChangeInstance.w_env, ChangeInstance.w_change, (Totals.new_state (Totals.mkConfig 0 0 false false)), l, b. exact H.
+Qed.
+Print Assumptions C07_pack_single_asset_premise_needed.
+
+(* instance: the fully concrete oracle (MinAda calculator, OutputSize value size, TxSize transaction size, linear fee)
+   meets C05's premises (its answers are u64) and the exactness premise above, so C05's conservation theorem and the
+   limits hold together on it *)
+Theorem C07_concrete_oracle_instance : forall (e : ChangeInstance.cenv),
+  ChangeProofs.oracle_u64 (ChangeInstance.c07_oracle e) /\
+  ChangeInstance.sizes_exact e (ChangeInstance.c07_oracle e) /\
+  (forall fuel addr extra s b,
+     Totals.state_wf s -> ChangeInstance.all_ok e s ->
+     Change.out_res (Change.add_change (ChangeInstance.c07_oracle e) fuel addr extra s tt) = Ok b ->
+     let s' := Change.out_st (Change.add_change (ChangeInstance.c07_oracle e) fuel addr extra s tt) in
+     ChangeInstance.all_ok e s' /\ ChangeProofs.balanced s').
+Proof.
+  intros e. split; [apply ChangeInstance.c07_oracle_u64|]. split; [apply ChangeInstance.c07_oracle_sizes_exact|].
+  intros fuel addr extra s b W A R. exact (ChangeInstance.add_change_concrete e fuel addr extra s b W A R).
+Qed.
+Print Assumptions C07_concrete_oracle_instance.
+
 (* the code before the repair: the top-up of the last output after its admission breaks the value-size limit
    on MAINNET parameters, and the minimum for a change address longer than 57 bytes *)
 Theorem C07_topup_refuted :
@@ -207,6 +283,10 @@ Proof. split; [exact topup_same_width_invariant | exact topup_min_ada_safe_short
 Print Assumptions C07_topup_conditional.
 
 (* ---- non-vacuity of the premises ---- *)
+Example ex_tx_size :              (* one input, one ADA-only output, one vkey witness *)
+  let x := mkCTx [(repeat 9 32, 0)] [mkCOut (repeat 1 29) 2000000 [] CDNone None] 170000 [(repeat 3 32, repeat 4 64)] [] in
+  ctx_ok x /\ full_tx_size (ctx_shape 0 x) = 197 /\ build_tx_guard (mkCfg 4310 5000 197) (ctx_shape 0 x) = Ok tt.
+Proof. cbn zeta. split; [repeat constructor|]. vm_compute. split; reflexivity. Qed.
 Example ex_schema_tie :           (* a post-Alonzo output: 3-byte address, one token, inline datum (uint 5), Plutus V2 script reference *)
   let o := mkCOut [97; 1; 2] 1500000 [(repeat 7 28, [([1; 2; 3], 9)])] (CDInline (VAlt 1 (VNat 5))) (Some (CSPlutus 1 [1; 2; 3; 4])) in
   ids28 (co_ma o) /\ hash_ok (co_datum o) /\ lang_ok (co_sref o) /\
